@@ -34,6 +34,9 @@ type FuncContract struct {
 	Iterator bool // calls its function argument once per entry of a ghost map view (callback-loop rule)
 	IterView string // expression text giving the view iterated (over receiver/params)
 	NoReturnCheck bool
+	ClosedWorld bool // functype: values originate only from this package's own function literals
+	Implements []string
+	merged bool
 	File     string
 	Line     int
 	Ghosts   []*GhostUpdate
@@ -94,7 +97,7 @@ var (
 	reFuncHdr  = regexp.MustCompile(`^(func|iface|functype)\s+(\S+?)\s*\(([^)]*)\)\s*(?:\(([^)]*)\))?\s*$`)
 	reLabel    = regexp.MustCompile(`^([A-Za-z0-9_.+\-/@]+):\s+(.*)$`)
 	rePure     = regexp.MustCompile(`^pure\s+([A-Za-z_][A-Za-z0-9_]*)\s*\(([^)]*)\)\s*(\S+)\s*(?:=\s*(.*))?$`)
-	reKeyword  = regexp.MustCompile(`^(func|iface|functype|type|pure|axiom|requires|ensures|loop|rangeloop|assigns|let|trusted|pureeffect|iterator|sends|ghost|noreturncheck|safety)\b`)
+	reKeyword  = regexp.MustCompile(`^(func|iface|functype|type|pure|axiom|requires|ensures|loop|rangeloop|assigns|let|trusted|pureeffect|iterator|sends|ghost|noreturncheck|safety|closedworld|implements)\b`)
 )
 
 func splitNames(s string) []string {
@@ -254,6 +257,16 @@ func (cs *ContractSet) parseFile(path string) error {
 				return errf("clause outside function")
 			}
 			cur.Clauses = append(cur.Clauses, &Clause{Kind: "safety", Src: rest, Line: l.no})
+		case "closedworld":
+			if cur == nil {
+				return errf("clause outside function")
+			}
+			cur.ClosedWorld = true
+		case "implements":
+			if cur == nil {
+				return errf("clause outside function")
+			}
+			cur.Implements = append(cur.Implements, rest)
 		case "trusted":
 			if cur == nil {
 				return errf("clause outside function")
